@@ -558,6 +558,7 @@ impl<'a> Gen<'a> {
             2 => format!("{tok} caf\u{e9} \u{2603} \u{1f600} {{\"json\": true}}"),
             3 => format!("  {tok} padded with blanks  "),
             4 => format!("{tok}\tTAB and / slash & ampersand %20"),
+            5 if self.rng.chance(1, 3) => format!("{tok} the sum \\(in USD\\) stays, 1\\) and 2\\) too"),
             5 if self.rng.chance(1, 2) => format!("{tok} see issue #12, https://example.com/a//b#frag ; x < y > z"),
             5 if self.rng.chance(1, 2) => format!("{tok} every {{block}} placeholder needs its {{condition}} and {{content}}, ${{1}} %s {{0}}"),
             _ => format!("{tok} items must be fruit"),
@@ -1151,6 +1152,8 @@ impl<'a> Gen<'a> {
                 && self.rng.chance(1, 3)
             {
                 f.md_nest = 1;
+            } else if matches!(f.diff, FileDiff::None) && (w.ends_with(".md") || w.ends_with(".markdown")) && self.rng.chance(1, 2) {
+                f.md_ref = true;
             }
         }
         // a type change: the added file replaces a symbolic link of the same name
